@@ -555,6 +555,21 @@ func (g *Gen) valForText(forF bool) Val {
 	if x.Form == 1 && forF && (x.Exp > 400 || x.Exp < -400) {
 		x.Exp = int64(g.intn(61) - 30)
 	}
+	if x.Form == 1 && forF && g.chance(0.2) {
+		// small numbers whose %f text has whole words of leading zeros: "0." + zeros + digits with a total digit
+		// count at (or next to) a multiple of the word size - the digit scanner stores complete groups separately
+		n := 1 + g.intn(40)
+		d := trimZeros(g.digitsPattern(n))
+		if d == "" || d[0] == '0' {
+			d = "5"
+		}
+		total := 19*(2+g.intn(3)) + g.intn(3) - 1
+		e := int64(len(d)) + 1 - int64(total) // 1 + (-exp) + digits = total
+		if g.chance(0.5) {
+			e-- // base 0: the leading '0' is consumed by the prefix detection
+		}
+		x = Val{Form: 1, Neg: g.intn(2) == 0, Digits: d, Exp: e, Prec: uint(len(d)) + uint(g.intn(3)), Mode: g.mode()}
+	}
 	return x
 }
 
@@ -684,6 +699,11 @@ func (g *Gen) genRoundTrip(p *Prog) {
 	p.Exec(fmt.Sprintf("parse %d %d %x", z, base, s))
 	p.Exec(fmt.Sprintf("cmp %d %d", z, xi))
 	p.Exec(fmt.Sprintf("sign %d", z))
+	if g.chance(0.15) {
+		// returned encodings stay valid while other values (of similar length) are converted
+		o := p.Load(g.valForText(false))
+		p.Exec(fmt.Sprintf("marshalhold %d %d", xi, o))
+	}
 }
 
 var litAlphabet = []byte("0123456789abcdefABCDEFxXoOpP_.+-eEinfIN ")
@@ -691,7 +711,13 @@ var litAlphabet = []byte("0123456789abcdefABCDEFxXoOpP_.+-eEinfIN ")
 // genParse: structured literals and a malformed stream (C12).
 func (g *Gen) genParse(p *Prog) {
 	prec := g.prec(true)
-	z := p.Load(g.receiver(prec, g.mode()))
+	z := p.loadMaybeInexact(g.receiver(prec, g.mode()), true)
+	if g.chance(0.06) {
+		// zero literals of every spelling into a receiver that may carry an inexact accuracy from earlier use
+		zs := []string{"0", "-0", "+0", "0e10", "0.000", "-0.0e-5", "0x0p3", "0_0.0_0", "0b0", "00", "0E0"}[g.intn(11)]
+		p.Exec(fmt.Sprintf("parse %d %d %x", z, []int{0, 0, 10}[g.intn(3)], zs))
+		return
+	}
 	var s string
 	base := []int{0, 10, 10, 0, 2, 8, 16}[g.intn(7)]
 	digs := func(n int, set string) string {
@@ -884,6 +910,34 @@ func (g *Gen) genFloat(p *Prog) {
 			p.Exec(fmt.Sprintf("float32 %d", xi))
 			return
 		}
+		if g.chance(0.06) {
+			// mantissas of w whole words where floor(19w*log2(10)) is a multiple of 64 (w = 72, 144, ...): the binary
+			// buffer of decToNat has no slack there; leading digits high enough to need the top bit
+			var ws []int
+			for w := 2; w <= 160; w++ {
+				if int(float64(19*w)*3.321928094887362)%64 == 0 {
+					ws = append(ws, w)
+				}
+			}
+			w := ws[g.intn(len(ws))]
+			if g.chance(0.7) {
+				w = ws[0]
+			}
+			d := []byte(g.digitsPattern(19*w - g.intn(19)))
+			for i := 0; i < 4 && i < len(d); i++ {
+				d[i] = byte('7' + g.intn(3))
+			}
+			if g.chance(0.5) {
+				d[0], d[1] = '9', '9'
+			}
+			v := Val{Form: 1, Neg: g.intn(2) == 0, Digits: trimZeros(string(d)), Exp: int64(g.intn(601) - 300), Mode: g.mode()}
+			v.Prec = uint(len(v.Digits))
+			xi := p.Load(v)
+			p.Exec(fmt.Sprintf("float64 %d", xi))
+			p.Exec(fmt.Sprintf("float32 %d", xi))
+			p.Exec(fmt.Sprintf("float %d %d %d %d", xi, 1+g.intn(300), g.intn(6), g.intn(5)))
+			return
+		}
 		switch g.intn(5) {
 		case 0, 1: // a float64 value, exactly or perturbed far below one ulp
 			f := math.Float64frombits(g.f64bits())
@@ -961,7 +1015,16 @@ func (g *Gen) genFloat(p *Prog) {
 			x.Exp = int64(g.intn(401) - 200)
 		}
 		xi := p.Load(x)
-		p.Exec(fmt.Sprintf("float %d %d %d", xi, 1+g.intn(300), g.intn(6)))
+		p.Exec(fmt.Sprintf("float %d %d %d %d", xi, 1+g.intn(300), g.intn(6), g.intn(5)))
+		if g.chance(0.3) {
+			// zeros and infinities into destinations of every kind
+			sv := g.special()
+			if sv.Form == 1 { // (special() also yields finite values at the ends of the exponent range: not here)
+				sv = Val{Form: 2 * g.intn(2), Neg: g.intn(2) == 0, Prec: g.prec(true), Mode: g.mode()}
+			}
+			s := p.Load(sv)
+			p.Exec(fmt.Sprintf("float %d %d %d %d", s, 1+g.intn(100), g.intn(6), g.intn(5)))
+		}
 	}
 }
 
